@@ -107,3 +107,14 @@ def classify_c03(step, ftype, calibrators, tol, hooks=None):
     if c["mono"] != 0 and c["conv"] != 0 and c["out_of_range"] > tol:
       return "KF-C03-b"
   return None
+
+
+def classify_c10_categorical_bounds(omin, omax, init):
+  """KF-C10-a: CategoricalCalibration derives its initial range from the bounds
+  only when BOTH are given; with exactly one bound the default 'uniform'
+  (RandomUniform(-0.05, 0.05)) / 'constant' initializer ignores it, so a fresh
+  layer can start outside its one-sided bound and fail its own
+  assert_constraints()."""
+  if (omin is None) != (omax is None) and init in ("uniform", "constant"):
+    return "KF-C10-a"
+  return None
